@@ -17,7 +17,7 @@ Proj(f) == [p \in Paths |-> f[p].cid]
 Resync(f, logged, fl) ==
     [p \in Paths |-> IF logged[p] = NoFile THEN None
                      ELSE IF f[p].cid = logged[p] THEN f[p]
-                     ELSE [cid |-> logged[p], wflip |-> fl]]
+                     ELSE [cid |-> logged[p], wflip |-> fl, ext |-> << >>]]
 
 ToSetOfStrings(s) == { s[k] : k \in DOMAIN s }
 
@@ -25,6 +25,9 @@ ToSetOfStrings(s) == { s[k] : k \in DOMAIN s }
 Sig(r) ==
     CASE r.a = "Write" -> "Write:" \o KindOf[r.c] \o ":" \o r.p
       [] r.a = "Read"  -> "Read:" \o r.kind \o ":" \o r.p
+      [] r.a = "ReadHdu" -> "ReadHdu:" \o r.kind \o ":" \o r.p
+      [] r.a = "WriteImaging" -> "WriteImaging"
+      [] r.a = "ReadImaging" -> "ReadImaging"
       [] r.a = "HduIn" -> "HduIn:" \o r.kind \o
                           (IF r.n \in DOMAIN hdus /\ hdus[r.n].cid \in Aniso THEN ":anisotropic" ELSE "")
       [] OTHER -> r.a
@@ -90,6 +93,49 @@ StepHduIn(r) ==
        /\ res' = [a |-> "HduIn"]
        /\ UNCHANGED << fs, dirs, flip, hdus, hist >>
 
+StepWriteMulti(r) ==
+    LET ok  == r.n1 \in DOMAIN hdus /\ r.n2 \in DOMAIN hdus
+        mfs == IF ok THEN [fs EXCEPT ![r.p] = [cid |-> hdus[r.n1].cid, wflip |-> hdus[r.n1].wflip, ext |-> << hdus[r.n2] >>]] ELSE fs
+    IN /\ fs' = IF Proj(mfs) = r.files THEN mfs ELSE Resync(fs, r.files, flip)
+       /\ dirs' = dirs \cup ToSetOfStrings(r.dirs)
+       /\ res' = [a |-> "WriteMulti"]
+       /\ UNCHANGED << flip, hdus, hist >>
+
+StepReadHdu(r) ==
+    LET known == fs[r.p] # None /\ r.hdu >= 1 /\ r.hdu <= Len(fs[r.p].ext)
+        want  == IF known THEN ReadValue(fs[r.p].ext[r.hdu], flip) ELSE [cid |-> NoFile, flipped |-> FALSE]
+        same  == known /\ fs[r.p].ext[r.hdu].wflip = flip
+        bad   == Cl("hdu-index-selects-the-extension-written-there", known /\ r.cid = want.cid)
+                 \o Cl("flip-on-output-undone-on-input", (same /\ r.cid = want.cid) => ~ r.flipped)
+                 \o Cl("read-leaves-files-alone", Proj(fs) = r.files)
+    IN /\ IF bad = << >> THEN TRUE ELSE Reject(r, bad, want)
+       /\ res' = [a |-> "ReadHdu"]
+       /\ UNCHANGED << fs, dirs, flip, hdus, hist >>
+
+StepWriteImaging(r) ==
+    LET ok  == SeqOk(fs, r.ow)
+        mfs == FsAfterSeq(fs, flip, << r.cd, r.ck, r.cn >>, r.ow, 1)
+        bad == Cl("imaging-output-fails-iff-a-path-exists-and-no-overwrite", ok = r.ok)
+               \o Cl("file-system-after-imaging-output", Proj(mfs) = r.files)
+    IN /\ IF bad = << >> THEN TRUE ELSE Reject(r, bad, [ok |-> ok, files |-> Proj(mfs)])
+       /\ fs' = IF Proj(mfs) = r.files THEN mfs ELSE Resync(fs, r.files, flip)
+       /\ dirs' = dirs \cup ToSetOfStrings(r.dirs)
+       /\ res' = [a |-> "WriteImaging", ok |-> r.ok]
+       /\ UNCHANGED << flip, hdus, hist >>
+
+StepReadImaging(r) ==
+    LET part(nm, got_cid, got_flipped) ==
+            LET e == fs[nm] known == e # None want == IF known THEN ReadValue(e, flip) ELSE [cid |-> NoFile, flipped |-> FALSE] IN
+            Cl("imaging-" \o nm \o "-returns-written-values", known /\ got_cid = want.cid)
+            \o Cl("imaging-" \o nm \o "-flip-undone", (known /\ e.wflip = flip /\ got_cid = want.cid) => ~ got_flipped)
+        valid == << fs["img_data"].cid, fs["img_psf"].cid, fs["img_noise"].cid >> \in ImagingTriples
+        bad == IF ~ valid THEN << >>     \* the three files do not form a valid dataset: no claim
+               ELSE part("img_data", r.data_cid, r.data_flipped) \o part("img_psf", r.psf_cid, r.psf_flipped)
+                    \o part("img_noise", r.noise_cid, r.noise_flipped)
+    IN /\ IF bad = << >> THEN TRUE ELSE Reject(r, bad, Proj(fs))
+       /\ res' = [a |-> "ReadImaging"]
+       /\ UNCHANGED << fs, dirs, flip, hdus, hist >>
+
 StepSetFlip(r) ==
     /\ flip' = r.b /\ res' = [a |-> "SetFlip"] /\ UNCHANGED << fs, dirs, hdus, hist >>
 
@@ -106,6 +152,10 @@ TraceNext ==
            [] r.a = "HduOut"  -> StepHduOut(r)
            [] r.a = "HduIn"   -> StepHduIn(r)
            [] r.a = "SetFlip" -> StepSetFlip(r)
+           [] r.a = "WriteMulti" -> StepWriteMulti(r)
+           [] r.a = "ReadHdu" -> StepReadHdu(r)
+           [] r.a = "WriteImaging" -> StepWriteImaging(r)
+           [] r.a = "ReadImaging" -> StepReadImaging(r)
            [] OTHER           -> StepUnknown(r)
     /\ i' = i + 1
 
